@@ -128,12 +128,30 @@ def gen_case(g):
 
     lat1, lon1 = scatter(n1)
     t1 = T0 + (rng.integers(0, max(1, span // tick), n1) * tick)
+    split = g.get("split")
+    if split == "dateline":
+        # every primary strictly east, every secondary strictly west of the date line (or vice versa)
+        lon1 = 180.0 - np.abs(rng.uniform(1e-4, 0.5 * spread_km / 111.0, n1))
+    elif split == "pole":
+        # both sets next to the pole, in far-apart longitude sectors
+        lat1 = 90.0 - np.abs(rng.uniform(1e-3, spread_km / 111.0, n1))
+        lon1 = rng.uniform(-30.0, 30.0, n1)
     w = g.get("grid_w")
     if w:
         t1 = np.repeat(t1[::w], w)[:n1]  # one time per scan line
     lat2, lon2 = scatter(n2)
     t2 = T0 + (rng.integers(0, max(1, span // tick), n2) * tick)
-    if cls in ("threshold", "dup", "first-first", "nan", "grid"):
+    if split == "dateline":
+        lon2 = -180.0 + np.abs(rng.uniform(1e-4, 0.5 * spread_km / 111.0, n2))
+        lat2 = lat1[rng.integers(0, n1, n2)] + rng.uniform(-0.2, 0.2, n2) * spread_km / 111.0
+        if g["seed"] % 2:
+            lon1, lon2 = -lon1, -lon2
+    elif split == "pole":
+        lat2 = 90.0 - np.abs(rng.uniform(1e-3, spread_km / 111.0, n2))
+        lon2 = rng.uniform(150.0, 180.0, n2) * rng.choice([-1, 1], n2)
+        if g["seed"] % 2:
+            lat1, lat2 = -lat1, -lat2
+    if cls in ("threshold", "dup", "first-first", "nan", "grid") and not split:
         # secondaries derived from primaries with chosen distance / time offsets
         for j in range(n2):
             i = int(rng.integers(0, n1))
